@@ -200,14 +200,22 @@ func (t *ReuseConnTransport) getIdleConn() (*reusableConn, error) {
 // It always returns a nil error.
 func (t *ReuseConnTransport) Close() error {
 	t.m.Lock()
-	defer t.m.Unlock()
 	if t.closed {
+		t.m.Unlock()
 		return nil
 	}
 	t.closed = true
+	conns := make([]*reusableConn, 0, len(t.conns))
 	for c := range t.conns {
 		delete(t.conns, c)
 		delete(t.idleConns, c)
+		conns = append(conns, c)
+	}
+	t.m.Unlock()
+
+	// Close connections without holding t.m. A connection that is failing on
+	// its own right now is inside closeOnce and waiting for t.m.
+	for _, c := range conns {
 		c.closeWithErrByTransport(ErrClosedTransport)
 	}
 	t.ctxCancel(ErrClosedTransport)
